@@ -79,6 +79,17 @@ PROPS = {
             'technique': 'Verus: per-type ghost encoder/decoder generated from an RFC schema (contracts/schema.py); the real parse/write_to/len bodies are proved against them; Kani for the IANA type-code table',
             'text': 'proof for all inputs for the straight-line types: parse reads exactly the RFC layout (wf_dec), write_to emits exactly the RFC encoding (wf_enc), len equals its size; loop/union types (TXT OPT SVCB NSEC IPSECKEY NSAP) are currently covered for safety only',
             'note': VERUS_NOTE + '; ' + KANI_NOTE},
+    'C11': {'standin': ['malformed', 'roundtrip'], 'verus': True, 'level': 'other',
+            'kani': ['header_reserialise_named', 'header_reserialise_reserved'],
+            'technique': 'composition of the deductive contracts (Packet::parse establishes pkt_dec(data, p); every writer is proved to emit bytes that satisfy pkt_dec(output, p) for p within limits and canonical) + a loop-free Kani proof for the header word + a bounded stand-in on the real code for the one step that is not machine-checked (parser output is within limits and canonical)',
+            'text': 'bounded for the composition, proof for the parts: (1) proved: parse => pkt_dec; write_compressed_to => pkt_dec(output, self) and per-element round-trip lemmas for every type, under wf_ok && wf_canon; (2) complete (Kani): header words with named opcode/rcode are re-serialised bit-exactly; reserved ones are not (known finding D11); (3) bounded: that every accepted message yields a packet satisfying wf_ok && wf_canon and re-serialises (plain and compressed) to a message that parses to the same packet is checked on ~40000 accepted/rejected variants of generated messages, not proved',
+            'explanation': 'bounded: the lemma "wf_dec(data, p, v, p2) implies v.wf_ok() && v.wf_canon()" is not yet machine-checked; it is replaced by the stand-in suite `malformed` (every truncation, +-1 and 4 fixed values at every byte of ~45 generated messages < 600 bytes and 20 hand-made pointer graphs: each accepted variant is re-serialised plain and compressed and re-parsed) and `roundtrip`. Deductive parts and the Kani header harnesses are counted under obligations; the stand-in is not.',
+            'note': VERUS_NOTE + '; ' + KANI_NOTE + '; known finding D11 (reserved opcode / rcode values are rewritten); uncompressed RDATA larger than 65535 bytes after pointer expansion is outside wf_ok'},
+    'C16': {'standin': ['roundtrip', 'malformed'], 'verus': False, 'level': 'other', 'kani': [],
+            'technique': 'bounded stand-in on the real code: into_owned / clone / Eq / Hash observers applied to every record of ~250 generated packets and to every accepted malformed variant',
+            'text': 'bounded: into_owned() of every parsed record compares equal, prints identically and hashes identically to the borrowed original on the generated corpus; the manual Hash / PartialEq pairs of Name and ResourceRecord delegate to the same fields (by inspection). No deductive contract yet; InstanceInformation (simple-mdns, HashSet iteration order) is not covered',
+            'explanation': 'bounded: suites `roundtrip` (211 packets: every constructible record kind x 5 name combinations, EDNS, messages straddling 16 KiB) and `malformed` (accepted variants). Not a proof.',
+            'note': 'public API only; simple-mdns InstanceInformation clause of C16 is not decided'},
     'C12': {'standin': ['observers', 'malformed'], 'verus': True, 'kani': [],
             'technique': 'Verus contracts on Display for Label and Display for CharacterString with std::fmt::Formatter modelled by one ghost predicate ("the sink failed"); panic-freedom of the parse-produced observers that are inside Verus',
             'text': 'proof for all label / string contents: fmt returns Err only if the formatter\'s sink returned Err and never panics (from_utf8 failure falls back to a lossy rendering); this is what to_string() / format!() and the Debug impls built on them rely on. Display for Name, the Debug impls (format_args!), TXT::attributes / long_attributes and String::try_from are outside Verus: they are listed as unverified observers (they only propagate the results of the two verified functions or use Result-returning std conversions)',
